@@ -39,6 +39,32 @@ def is_value_of(term, obj, allow_cast=True):
 
 def ret_data(p):
     """value stored in the wrapper object returned by the path (or the plain returned value)"""
+    v = _ret_data(p)
+
+    def subst(t, depth=0):
+        if not isinstance(t, tuple) or depth > 6:
+            return t
+        if t[:1] == ("tmp",):
+            nv = p.state.mem.get(t)
+            if isinstance(nv, tuple) and nv[:1] not in (("closure",),) and nv != t:
+                return subst(nv, depth + 1)
+            return t
+        return tuple(subst(x, depth + 1) if isinstance(x, tuple) else x for x in t)
+
+    if isinstance(v, tuple) and v[:1] in (("cast",), ("xcast",), ("lin",), ("mul",), ("bin",), ("un",)):
+        v = subst(v)
+    for _ in range(4):  # a scalar temporary materialised for a by-reference parameter stands for its content
+        if isinstance(v, tuple) and v[:1] == ("tmp",) and p.state.mem.get(v) is not None and not isinstance(p.state.mem.get(v), dict):
+            nv = p.state.mem.get(v)
+            if isinstance(nv, tuple) and nv[:1] == ("closure",):
+                break
+            v = nv
+        else:
+            break
+    return v
+
+
+def _ret_data(p):
     r = p.retval
     if r is None:
         return None
@@ -47,8 +73,11 @@ def ret_data(p):
             v = p.state.mem.get(("fld", r, fld))
             if v is not None:
                 return v
-        src = p.state.mem.get(("copyof", r))
-        if src is not None:
+        src = r
+        for _ in range(8):  # follow the chain of copies / moves through which the result object was handed out
+            src = p.state.mem.get(("copyof", src))
+            if src is None:
+                break
             for fld in ("data", "val"):
                 v = p.state.mem.get(("fld", src, fld))
                 if v is not None:
